@@ -83,7 +83,7 @@ pub fn geo(img: &Img, pt: Pt) -> Geo {
         mh,
         tail,
         px: pt.size(),
-        off: if matches!(k, Kind::Buffer | Kind::DynSlice | Kind::DynImgAsSrc) { (img.misalign & 3) as usize } else { 0 },
+        off: if matches!(k, Kind::Buffer | Kind::DynSlice | Kind::DynImgAsSrc) { (img.misalign & 15) as usize } else { 0 },
     }
 }
 
